@@ -107,41 +107,28 @@ theorem idBounds_contains (bs be : Int) (kept : List Child) :
   rw [hullOf_cons]
   exact ⟨(foldl_min_spec _ bs).2.1, (foldl_max_spec _ be).2.1⟩
 
-/-- on a chunk the new parent is clamped to the bounds; on a whole chromosome the kept members must lie inside
-    the bounds (by construction when the bounds are the chromosome's; the complement is F-C09d (b)) -/
-def IdDomain (src : Source) (bs be : Int) (keptS : List Child) : Prop :=
-  src.par.isChunk = true ∨ ∀ c ∈ keptS, bs ≤ c.start ∧ c.stop ≤ be
-
 theorem bounds_le_of_located {src : Source} (wf : SrcWF src) {bs be : Int} (hb : selfBounds src = some (bs, be))
     (hl : (locRange src).isSome = true) : bs ≤ be := by
   cases hp : src.par with
   | none => rw [locRange_noseq (by rw [hp]; rfl)] at hl; cases hl
   | noseq => rw [locRange_noseq (by rw [hp]; rfl)] at hl; cases hl
   | whole seq => have := bounds_whole wf hp hb; omega
-  | chunk cs seq => exact (bounds_chunk wf hp hb).1
+  | chunk cs seq => exact bounds_chunk wf hp hb
 
-theorem idDomain_subset (src : Source) (wf : SrcWF src) (bs be : Int) (hb : selfBounds src = some (bs, be))
-    (keptS : List Child) (ns ne : Int) (hnb : idBounds bs be keptS = (ns, ne))
-    (h : (locRange src).isSome = true → IdDomain src bs be keptS) : SubsetDomain src bs be ns ne := by
+theorem idBounds_subset (src : Source) (wf : SrcWF src) (bs be : Int) (hb : selfBounds src = some (bs, be))
+    (keptS : List Child) (ns ne : Int) (hnb : idBounds bs be keptS = (ns, ne)) : SubsetDomain src ns ne := by
   intro hl
   have hc := idBounds_contains bs be keptS
   rw [hnb] at hc
   simp only at hc
   have hle := bounds_le_of_located wf hb hl
-  refine ⟨by omega, fun _ => ?_⟩
-  rcases h hl with hk | hin
-  · exact Or.inr ⟨hk, hc.1, hc.2⟩
-  · have := idBounds_inside bs be keptS hin
-    rw [hnb] at this
-    simp only [Prod.mk.injEq] at this
-    exact Or.inl (by omega)
+  omega
 
 /-- the shared tail of every id query: `_return_collection_for_id_queries` on kept members `keptM` that are, as a
     set, the specified `keptS ⊆ src.children` -/
 theorem returnForIdQueries_meets (src : Source) (wf : SrcWF src) (bs be : Int) (hb : selfBounds src = some (bs, be))
     (keptM keptS : List Child) (hperm : keptM.Perm keptS) (hsub : ∀ c ∈ keptS, c ∈ src.children)
-    (hnd : (keptS.map Child.guid).Nodup)
-    (hin : (locRange src).isSome = true → IdDomain src bs be keptS) :
+    (hnd : (keptS.map Child.guid).Nodup) :
     okIdResult src keptS (toAns (returnForIdQueries src keptM)) = true := by
   unfold okIdResult expectIdResult returnForIdQueries
   rw [specBounds_eq_self hb, checkSource_ok wf.cons, needBounds_of hb]
@@ -151,77 +138,10 @@ theorem returnForIdQueries_meets (src : Source) (wf : SrcWF src) (bs be : Int) (
   obtain ⟨ns, ne⟩ := nb
   simp only []
   obtain ⟨r, hr, hrn⟩ := buildNew_meets src wf bs be hb keptM keptS hperm hsub hnd ns ne
-    (idDomain_subset src wf bs be hb keptS ns ne hnb hin)
+    (idBounds_subset src wf bs be hb keptS ns ne hnb)
   rw [hr]
   simp only [toAns, meets, beq_iff_eq]
   exact hrn
-
-/-! ### members of a whole chromosome lie inside its bounds -/
-
-/-- the complement is F-C09d (b): a whole chromosome with EXPLICIT bounds narrower than a member -/
-def WholeBoundsOK (src : Source) : Prop :=
-  ∀ seq bs be, src.par = .whole seq → src.bounds = some (bs, be) →
-    ∀ c ∈ src.children, bs ≤ c.start ∧ c.stop ≤ be
-
-theorem hull_attained {l : List (Int × Int)} {a b : Int} (h : hullOf l = some (a, b)) :
-    (∃ p ∈ l, p.1 = a) ∧ (∃ q ∈ l, q.2 = b) := by
-  unfold hullOf at h
-  cases hm : minList (l.map (·.1)) with
-  | none => rw [hm] at h; simp at h
-  | some m =>
-    cases hx : maxList (l.map (·.2)) with
-    | none => rw [hm, hx] at h; simp at h
-    | some x =>
-      rw [hm, hx] at h
-      simp only [Option.some.injEq, Prod.mk.injEq] at h
-      obtain ⟨rfl, rfl⟩ := h
-      rw [minList_eq_some_iff] at hm
-      rw [maxList_eq_some_iff] at hx
-      obtain ⟨p, hp, hp1⟩ := List.mem_map.mp hm.1
-      obtain ⟨q, hq, hq1⟩ := List.mem_map.mp hx.1
-      exact ⟨⟨p, hp, hp1⟩, ⟨q, hq, hq1⟩⟩
-
-theorem members_inside_whole (src : Source) (wf : SrcWF src) (hW : WholeBoundsOK src) (seq : List Char)
-    (hp : src.par = .whole seq) (bs be : Int) (hb : selfBounds src = some (bs, be)) :
-    ∀ c ∈ src.children, bs ≤ c.start ∧ c.stop ≤ be := by
-  intro c hc
-  cases hbb : src.bounds with
-  | some x =>
-    have hs : selfBounds src = some x := by unfold selfBounds; rw [hbb]
-    rw [hb] at hs
-    simp only [Option.some.injEq] at hs
-    subst hs
-    exact hW seq bs be hp hbb c hc
-  | none =>
-    have := selfBounds_whole hp hbb
-    rw [hb] at this
-    simp only [Option.some.injEq, Prod.mk.injEq] at this
-    obtain ⟨rfl, rfl⟩ := this
-    have hpar := wf.par
-    unfold ParWF at hpar
-    rw [hp] at hpar
-    obtain ⟨⟨p, hpm, hp1⟩, ⟨q, hqm, hq1⟩⟩ := hull_attained (wf.hull c hc).1
-    obtain ⟨g1, hg1, rfl⟩ := List.mem_map.mp hpm
-    obtain ⟨g2, hg2, rfl⟩ := List.mem_map.mp hqm
-    have h1 := hpar.2 c hc g1 hg1
-    have h2 := hpar.2 c hc g2 hg2
-    simp only at hp1 hq1
-    omega
-
-theorem idDomain_children (src : Source) (wf : SrcWF src) (hW : WholeBoundsOK src) (bs be : Int)
-    (hb : selfBounds src = some (bs, be)) (keptS : List Child)
-    (hsub : ∀ c ∈ keptS, ∃ c0 ∈ src.children, c0.start ≤ c.start ∧ c.stop ≤ c0.stop) :
-    (locRange src).isSome = true → IdDomain src bs be keptS := by
-  intro hl
-  cases hp : src.par with
-  | none => rw [locRange_noseq (by rw [hp]; rfl)] at hl; cases hl
-  | noseq => rw [locRange_noseq (by rw [hp]; rfl)] at hl; cases hl
-  | chunk cs seq => exact Or.inl (by rw [hp]; rfl)
-  | whole seq =>
-    refine Or.inr (fun c hc => ?_)
-    obtain ⟨c0, hc0, h1, h2⟩ := hsub c hc
-    have := members_inside_whole src wf hW seq hp bs be hb c0 hc0
-    omega
 
 /-! ### `query_by_guids` -/
 
@@ -250,24 +170,20 @@ theorem keptByGuids_perm (src : Source) (wf : SrcWF src) (ids : List Nat) (hids 
 
 /-- T3a: `query_by_guids` returns exactly { c | c.guid ∈ ids } -/
 theorem queryByGuids_meets (src : Source) (wf : SrcWF src) (ids : List Nat) (hids : ids.Nodup) (bs be : Int)
-    (hb : selfBounds src = some (bs, be)) (hW : WholeBoundsOK src) :
+    (hb : selfBounds src = some (bs, be)) :
     okQueryByGuids src ids (toAns (queryByGuids src ids)) = true := by
   unfold okQueryByGuids queryByGuids
   exact returnForIdQueries_meets src wf bs be hb _ _ (keptByGuids_perm src wf ids hids)
     (fun c hc => (List.mem_filter.mp hc).1) (nodup_guid_filter wf.guids _)
-    (idDomain_children src wf hW bs be hb _
-      (fun c hc => ⟨c, (List.mem_filter.mp hc).1, Int.le_refl _, Int.le_refl _⟩))
 
 /-! ### `query_by_feature_identifiers` -/
 
 /-- T3b: `query_by_feature_identifiers` returns exactly { c | c.identifiers ∩ ids ≠ ∅ } -/
 theorem queryByIdentifiers_meets (src : Source) (wf : SrcWF src) (ids : List (List Char)) (bs be : Int)
-    (hb : selfBounds src = some (bs, be)) (hW : WholeBoundsOK src) :
+    (hb : selfBounds src = some (bs, be)) :
     okQueryByIdentifiers src ids (toAns (queryByIdentifiers src ids)) = true := by
   unfold okQueryByIdentifiers queryByIdentifiers keptByIdentifiers
   exact returnForIdQueries_meets src wf bs be hb _ _ ((iterChildren_perm src).filter _)
     (fun c hc => (List.mem_filter.mp hc).1) (nodup_guid_filter wf.guids _)
-    (idDomain_children src wf hW bs be hb _
-      (fun c hc => ⟨c, (List.mem_filter.mp hc).1, Int.le_refl _, Int.le_refl _⟩))
 
 end BioCantor.Proofs.Query
